@@ -197,7 +197,13 @@ func init() {
 		Gen: func(t *rapid.T, thorough bool) *Script {
 			o := mixedOpts(thorough)
 			o.Faults, o.BindFailures, o.MIG = false, false, false
-			switch pick(t, "c05profile", "mixed", "mixed", "pressure", "unobstructed", "unobstructed") {
+			prof := pick(t, "c05profile", "mixed", "mixed", "pressure", "unobstructed", "unobstructed", "departments", "departments")
+			if f := os.Getenv("KAISIM_C05_PROFILE"); f != "" {
+				prof = f
+			}
+			switch prof {
+			case "departments":
+				return GenUnobstructedDepartmentsScript(t, o)
 			case "pressure":
 				return GenPressureScript(t, "C05", "progress-pressure", o)
 			case "unobstructed":
@@ -205,7 +211,7 @@ func init() {
 			}
 			return GenScript(t, "C05", "progress-mixed", o)
 		},
-		Oracles: func() []Oracle { return []Oracle{ProgressOracle{}} },
+		Oracles: func() []Oracle { return []Oracle{&ProgressOracle{}} },
 	}
 	Props["C18"] = PropDef{
 		Gen:     GenC18Script,
